@@ -240,10 +240,13 @@ where
     }
 
     fn n_bins(&self) -> usize {
-        let mut max_edge = self.min.clone();
+        // The edges are placed by `build` at `min + i * bin_width`, so the
+        // bins are counted with the same expression (accumulating the width
+        // instead rounds differently for floating-point data).
         let mut n_bins = 0;
-        while max_edge <= self.max {
-            max_edge = max_edge + self.bin_width.clone();
+        while self.min.clone() + T::from_usize(n_bins).unwrap() * self.bin_width.clone()
+            <= self.max
+        {
             n_bins += 1;
         }
         n_bins
